@@ -108,8 +108,37 @@ class LockModel(object):
             if d and d.startswith('self.') and d.count('.') == 1:
                 self.writes.append(Site(name, stmt, held, attr=d[5:], how=how))
 
+    def _explicit(self, s, local):
+        """(lock, 'acquire' | 'release') for a bare `lock.acquire()` / `lock.release()` statement"""
+        if isinstance(s, ast.Expr) and isinstance(s.value, ast.Call) and isinstance(s.value.func, ast.Attribute) and s.value.func.attr in ('acquire', 'release'):
+            lk = self.lock_of(s.value.func.value, local)
+            if lk is not None:
+                return lk, s.value.func.attr
+        return None
+
     def _block(self, name, stmts, held, local, loop):
+        held = list(held)       # explicit acquire()/release() statements change what is held for the rest of the block
         for s in stmts:
+            ex = self._explicit(s, local)
+            if ex is not None:
+                lk, what = ex
+                if what == 'acquire':
+                    self.acq.append(Site(name, s, list(held), lock=lk, how='acquire'))
+                    held = held + [lk]
+                elif lk in held:
+                    held = [h for h in held if h != lk]
+                continue
+            if isinstance(s, ast.Try):
+                self._block(name, s.body, held, local, loop)
+                for h in s.handlers:
+                    self._block(name, h.body, held, local, loop)
+                self._block(name, s.orelse, held, local, loop)
+                self._block(name, s.finalbody, held, local, loop)
+                for f in s.finalbody:
+                    ex2 = self._explicit(f, local)
+                    if ex2 is not None and ex2[1] == 'release':
+                        held = [h for h in held if h != ex2[0]]
+                continue
             if isinstance(s, (ast.With, ast.AsyncWith)):
                 got = []
                 for it in s.items:
